@@ -220,6 +220,7 @@ def run_property(prop, repo="/repo", tier="quick", crates=None, meta=None, quiet
                 "bodies_per_package": (meta or {}).get("bodies_per_package"),
                 "functions_inspected_by_rules": len(ctx.analysed_fns),
                 "renamed_functions": {k: v for k, v in sorted((getattr(db, "renamed", None) or {}).items())},
+                "renamed_fields": getattr(db, "renamed_fields", None) or {},
                 "functions": sorted(short_path(k) for k in ctx.analysed_fns)[:80],
             },
             "samples": samples[:60],
